@@ -1,5 +1,5 @@
 (* C03 - A clean restart preserves every message, offset and the append position. *)
-From IggyV Require Import Base.Tactics Base.ListX Model.Part Model.PartSpec Proofs.PartBasics Proofs.PartHistory.
+From IggyV Require Import Base.Tactics Base.ListX Model.Part Model.PartSpec Proofs.PartBasics Proofs.PartHistory Proofs.PartCounts Proofs.CacheHistory Proofs.OffsetsHistory Proofs.ReadExact Proofs.ReadPart Proofs.ReadHistory Proofs.ExpiryBasics Proofs.ExpiryHistory.
 Open Scope N_scope.
 
 Definition C03_full : Prop := forall c t0 ops, model_check c t0 ops = 0.
@@ -30,7 +30,20 @@ Proof.
   destruct (restart_facts _ now _ Hseg HJ) as [_ [A [B C]]]. split; [exact C | split; [exact B | exact A]].
 Qed.
 
+(* PROVED, history level WITH message expiry: the same statement for every operation list in which a message expiry may be
+   configured and changed at will and expiry-based retention runs at arbitrary times (Proofs/ExpiryHistory.v).  Side conditions:
+   segment size > 0, offsets below 2^32, log files below 2^32 bytes, and send timestamps that are non-zero and never go
+   backwards (the times at which maintenance passes run are arbitrary). *)
+Theorem C03_restart_preserves_expiry_partial : forall ops c t0 now, 0 < c_seg c -> times_ok 0 ops -> Forall bounds_ok (prun_states (c, part_new c t0) ops) ->
+  let c' := fst (pfinal (c, part_new c t0) ops) in let p := snd (pfinal (c, part_new c t0) ops) in
+  part_all (restart c' now p) = part_all p /\ first_start (restart c' now p) = first_start p /\ abase (restart c' now p) = abase p.
+Proof.
+  intros ops c t0 now Hseg Ht Hb. cbn zeta. destruct (history_E0 ops c t0 Hseg Ht Hb) as [HE Hseg']. pose proof (E_J _ _ _ HE) as HJ.
+  destruct (restart_facts _ now _ Hseg' HJ) as [_ [A [B C]]]. split; [exact C | split; [exact B | exact A]].
+Qed.
+
 Print Assumptions C03_restart_keeps_messages.
 Print Assumptions C03_restart_keeps_offsets.
 Print Assumptions C03_load_after_flush.
 Print Assumptions C03_restart_preserves_partial.
+Print Assumptions C03_restart_preserves_expiry_partial.
